@@ -19,6 +19,22 @@ def module_mutables(mod):
     return out
 
 
+def class_mutables(mod, f):
+    """mutable containers bound in the body of the class that f is a method of: {attribute name: assignment}"""
+    cls = None
+    for n in ast.walk(mod.tree):
+        if isinstance(n, ast.ClassDef) and any(x is f for x in n.body):
+            cls = n
+    out = {}
+    if cls is not None:
+        for s in cls.body:
+            if isinstance(s, ast.Assign) and len(s.targets) == 1 and isinstance(s.targets[0], ast.Name):
+                v = s.value
+                if isinstance(v, (ast.Dict, ast.List, ast.Set)) or (isinstance(v, ast.Call) and call_name(v) in ('dict', 'list', 'set', 'defaultdict', 'OrderedDict')):
+                    out[s.targets[0].id] = (s, cls.name)
+    return out
+
+
 def local_names(f):
     names = {a.arg for a in f.args.args + f.args.kwonlyargs}
     if f.args.vararg:
@@ -45,7 +61,19 @@ def writes(mod, f):
     for a, d in zip(pos[len(pos) - len(f.args.defaults):], f.args.defaults):
         if isinstance(d, (ast.Dict, ast.List, ast.Set)):
             defaults[a.arg] = d
+    cm = class_mutables(mod, f)
     for n in walk(f, skip_nested_defs=False):
+        # class-level containers written through self / cls / the class name: shared by all instances
+        base = None
+        if isinstance(n, (ast.Assign, ast.AugAssign)):
+            for t in (n.targets if isinstance(n, ast.Assign) else [n.target]):
+                if isinstance(t, ast.Subscript) and isinstance(t.value, ast.Attribute) and isinstance(t.value.value, ast.Name) and t.value.attr in cm \
+                        and t.value.value.id in ('self', 'cls', cm[t.value.attr][1]):
+                    key_ = unparse(t.slice)
+                    out.append(('class-level container', '%s.%s' % (cm[t.value.attr][1], t.value.attr), key_ if 'self' in key_ else None, n))
+        if isinstance(n, ast.Call) and isinstance(n.func, ast.Attribute) and n.func.attr in INPLACE and isinstance(n.func.value, ast.Attribute) and isinstance(n.func.value.value, ast.Name) \
+                and n.func.value.attr in cm and n.func.value.value.id in ('self', 'cls', cm[n.func.value.attr][1]):
+            out.append(('class-level container', '%s.%s' % (cm[n.func.value.attr][1], n.func.value.attr), None, n))
         if isinstance(n, ast.Global) and mod.enclosing_func(n) is f:
             for g in n.names:
                 out.append(('global statement', g, None, n))
